@@ -28,22 +28,19 @@ removes `plain` wherever the operand has to become a NUMBER:
 * `const_never_from_register` (the reason): an operand whose evaluation ends in a number contains no register, however
   often the evaluation was interrupted.
 
-FULL-STRENGTH STATEMENT — **FALSE, of the model and of the real assembler** (finding, `order_dependent_witness`,
-`stmt_outcome_order_independent_full_false` below):
+FULL-STRENGTH STATEMENT (no guard at the `ImmReg / Address / AddrOffset` positions):
     theorem stmt_outcome_order_independent_full (hs : Table.Sub t₁ t₂) (hn : Table.NoDef t₁)
         (h1 : Front.build addr name args (frontEval t₁) true = .deferred c fs1) (i : Instr) :
         (∃ fs2, Front.assemble fs1 (frontEval t₂) false = (fs2, .completed) ∧ fs2.instr = i) ↔
           Front.build addr name args (frontEval t₂) true = .completed i
-  Witness: `.addr 0x20000000; LDRB r2, [-(-1 - r0) * x]; .const x, 1;` assembles (bytes `42 78` = `LDRB r2, [r0, #1]`);
-  with `.const x, 1;` moved ABOVE the instruction the same statement is refused (`argument #3 for LDRB is out of range`).
-  Cause: the `Negate` arm of `simplify_raw` rewrites `-(l - r)` to `r - l` WITHOUT neutralizing the new node; for a
-  negative constant `l` (or a `Negate` `l`) the result `r0 - (-1)` is not in neutral form.  A later step that hands its
-  operand back unchanged (`* 1`, `/ 1`, `<< 0`, `>> 0`, `| 0`, `^ 0`, `& -1`) keeps it, and `addr_off` refuses
-  `r0 - (-1)`; the retry evaluates the left-behind `r0 - (-1)` once more, which normalises it to `r0 + 1`.  The guard
-  `LeftStableArg` is exactly what excludes it (`leftStableArgB … = false` for the witness).
-  The guard is sufficient, not necessary (`exTower` below): what separates it from the truth is a normal-form theorem
-  for the outputs of `evaluate` modulo the two non-neutralized `Negate` results `-(l - r)` [from `0 - (l - r)`] and
-  `r - (-k)`, `r - (-n)` [from `-(l - r)`].
+  History (K4): on the code as it was, this was FALSE — `.addr 0x20000000; LDRB r2, [-(-1 - r0) * x]; .const x, 1;`
+  assembled (`42 78` = `LDRB r2, [r0, #1]`) while with `.const x, 1;` ABOVE the instruction the statement was refused
+  (`argument #3 for LDRB is out of range`): the `Negate` arm of `simplify_raw` rewrote `-(l - r)` to `r - l` WITHOUT
+  neutralizing the new node, so `r0 - (-1)` survived a step that hands its operand back unchanged (`* 1`, `/ 1`, `<< 0`,
+  `| 0`, …) on the fresh path, while the retry evaluated it once more to `r0 + 1`.  The model in this branch follows the
+  repair (`neutralize_raw(arg)?` after the swap); the witness now agrees in both orders (`order_independent_below/above`).
+  The guard is sufficient, not necessary (`exTower` below): `evaluate` is still not idempotent at TREE level
+  (`Simp.resumes_false`: `0 - (l - r) ↦ -(l - r)` by `neutralize_raw`, which a second pass turns into `r - l`).
 
 `NoDef t₁` (no `.global/.import`-deferred entry in the table of the first attempt) is inherited from Props/C08Asm.lean.
 -/
@@ -170,6 +167,36 @@ theorem stmt_outcome_order_independent_number {t₁ t₂ : Table} (hs : Table.Su
   have := hk t hm p.1 (List.of_mem_zip hpz).1
   rw [this] at hsh
   cases hsh
+
+/-- C08 (statement level, STATE form of Props/C08Asm.lean with `plain` replaced by the exact condition)  If every operand
+satisfies `LeftStableArg`, the re-run IS the fresh run: same outcome, same instruction, same argument list. -/
+theorem stmt_bytes_order_independent_stable {t₁ t₂ : Table} (hs : Table.Sub t₁ t₂) (hn : Table.NoDef t₁) (addr : Nat)
+    (name : Bytes) (args : List Arg) (hp : ∀ a ∈ args, LeftStableArg t₁ t₂ a) (c : Bytes) (fs1 : Front.St)
+    (h1 : Front.build addr name args (frontEval t₁) true = .deferred c fs1) (loc : Bool) :
+    ∃ t, Front.mnemonic name = some t ∧
+      Front.assemble fs1 (frontEval t₂) loc = Front.assemble ⟨addr, t, 0, args⟩ (frontEval t₂) loc := by
+  unfold Front.build at h1
+  cases hm : Front.mnemonic name with
+  | none => rw [hm] at h1; cases h1
+  | some t =>
+    rw [hm] at h1
+    simp only at h1
+    cases ha : Front.assemble ⟨addr, t, 0, args⟩ (frontEval t₁) true with
+    | mk st r =>
+      rw [ha] at h1
+      cases r with
+      | completed => cases h1
+      | error d => cases h1
+      | panic => cases h1
+      | deferred c' =>
+        simp only [Front.BuildOut.deferred.injEq] at h1
+        obtain ⟨rfl, rfl⟩ := h1
+        exact ⟨t, rfl, Front.assemble_retry _ _ addr t args (fun a ha' => grows_stable hs hn (hp a ha')) st c' ha loc⟩
+
+/-- C08 (data, tree form under the exact condition) -/
+theorem du_value_order_independent_stable {t₁ t₂ : Table} (hs : Table.Sub t₁ t₂) (hn : Table.NoDef t₁) (a : Arg)
+    (hp : LeftStableArg t₁ t₂ a) (n : Bytes) (a₁ : Arg) (h : evalIn t₁ a = .ok (.noSuch n a₁)) :
+    evalIn t₂ a₁ = evalIn t₂ a := data_retry_stable hs hn hp h
 
 /-- the emitted bytes: same instruction, same address, same encoder — same bytes -/
 theorem stmt_bytes_of_outcome (enc : Encoder) (fs2 : Front.St) (i : Instr) (h : fs2.instr = i) : enc fs2.instr = enc i := by
@@ -320,48 +347,33 @@ end Trion.Asm
 namespace Trion.Asm
 open Trion
 
-/-! ### the finding: the full-strength statement is false -/
+/-! ### K4 (repaired): the statement on which the two orders used to differ -/
 
 /-- the operand of `LDRB r2, [-(-1 - r0) * x]` as the parser delivers it -/
 def exOrder : Arg :=
   .addr (.bin .mul (.neg (.bin .sub (.neg (.const 1)) (.ident [114, 48]))) (.ident [120]))
 
-/-- C08 FINDING (witness)  `LDRB r2, [-(-1 - r0) * x]` with `x = 1`:
-defined BELOW — the first attempt is deferred leaving `[(r0 - (-1)) * x]`, the re-run completes with
-`LDRB r2, [r0, #1]`; defined ABOVE — the fresh assembly is refused with `ValueRange` (argument #3).
-Replayed on the real assembler (`trias`, both orders): bytes `42 78` / "argument #3 for LDRB is out of range". -/
-theorem order_dependent_witness :
+/-- K4, before the repair of the `Negate` arm of `simplify_raw`: `-(−1 − r0)` was rewritten to `r0 − (−1)` and left
+un-neutralized, the fresh assembly with `x = 1` known ended with `[r0 − (−1)]` (refused, `ValueRange`) while the retry
+re-evaluated the left-behind tree to `[r0 + 1]`.  With `neutralize_raw` after the swap the first attempt already leaves
+`[(r0 + 1) * x]`, the operand satisfies the exact condition, and both orders give `LDRB r2, [r0, #1]`. -/
+example :
     (∃ fs1, Front.build 0 [76, 68, 82, 66] [.ident [114, 50], exOrder] (frontEval []) true = .deferred [120] fs1 ∧
       fs1.args = [.ident [114, 50],
-        .addr (.bin .mul (.bin .sub (.ident [114, 48]) (.const (-1))) (.ident [120]))] ∧
+        .addr (.bin .mul (.bin .add (.ident [114, 48]) (.const 1)) (.ident [120]))] ∧
       ∃ fs2, Front.assemble fs1 (frontEval [([120], some 1)]) false = (fs2, .completed) ∧
         fs2.instr = .ldrb 2 0 (.imm 1)) ∧
-    (∃ st, Front.build 0 [76, 68, 82, 66] [.ident [114, 50], exOrder] (frontEval [([120], some 1)]) true =
-      .error (.valueRange 2) st) ∧
-    leftStableArgB [] [([120], some 1)] exOrder = false :=
-  ⟨⟨_, rfl, rfl, _, rfl, rfl⟩, ⟨_, rfl⟩, rfl⟩
-
-/-- C08 FINDING  The full-strength statement-level property does not hold: there are a statement and tables
-`t₁ ⊆ t₂` for which defined-below assembles and defined-above is diagnosed. -/
-theorem stmt_outcome_order_independent_full_false :
-    ¬ (∀ (t₁ t₂ : Table) (addr : Nat) (name : Bytes) (args : List Arg) (c : Bytes) (fs1 : Front.St),
-        Table.Sub t₁ t₂ → Table.NoDef t₁ → Front.build addr name args (frontEval t₁) true = .deferred c fs1 →
-        ∀ i : Instr, (∃ fs2, Front.assemble fs1 (frontEval t₂) false = (fs2, .completed) ∧ fs2.instr = i) ↔
-          Front.build addr name args (frontEval t₂) true = .completed i) := by
-  intro h
-  obtain ⟨⟨fs1, hb, _, fs2, ha, hi⟩, ⟨st, he⟩, _⟩ := order_dependent_witness
-  have := (h [] [([120], some 1)] 0 [76, 68, 82, 66] [.ident [114, 50], exOrder] [120] fs1
-    (fun _ _ h => by simp [Table.find] at h) (fun _ h => by simp [Table.find] at h) hb (.ldrb 2 0 (.imm 1))).1
-    ⟨fs2, ha, hi⟩
-  rw [he] at this
-  cases this
+    Front.build 0 [76, 68, 82, 66] [.ident [114, 50], exOrder] (frontEval [([120], some 1)]) true =
+      .completed (.ldrb 2 0 (.imm 1)) ∧
+    leftStableArgB [] [([120], some 1)] exOrder = true :=
+  ⟨⟨_, rfl, rfl, _, rfl, rfl⟩, rfl, rfl⟩
 
 end Trion.Asm
 
 namespace Trion.Asm
 open Trion
 
-/-! ### the finding on the whole-pipeline model (`Asm.run`: lexer, parser, evaluator, front end, codec, regions, tasks) -/
+/-! ### K4 on the whole-pipeline model (`Asm.run`: lexer, parser, evaluator, front end, codec, regions, tasks) -/
 
 def exBelow : Bytes := bytesOf ".addr 0x20000000;\nLDRB r2, [-(-1 - r0) * x];\n.const x, 1;\n"
 def exAbove : Bytes := bytesOf ".addr 0x20000000;\n.const x, 1;\nLDRB r2, [-(-1 - r0) * x];\n"
@@ -374,12 +386,11 @@ def exSummary (r : Result) : Option (Bool × Nat × List (Nat × Bytes)) :=
   | _ => none
 
 /-- `x` defined BELOW the instruction: the project assembles, image `42 78` (`LDRB r2, [r0, #1]`) at 0x20000000 -/
-theorem order_dependent_below : exSummary (run (exOrdFs exBelow) [109]) = some (true, 0, [(536870912, [66, 120])]) := by
+theorem order_independent_below : exSummary (run (exOrdFs exBelow) [109]) = some (true, 0, [(536870912, [66, 120])]) := by
   decide +kernel
 
-/-- `x` defined ABOVE the instruction: the same statement is diagnosed (twice: at the statement and in its task), the
-placeholder `BE BE` stays in the image and the run fails -/
-theorem order_dependent_above : exSummary (run (exOrdFs exAbove) [109]) = some (false, 2, [(536870912, [190, 190])]) := by
+/-- `x` defined ABOVE the instruction: the same image (before the repair: two diagnostics and `BE BE`) -/
+theorem order_independent_above : exSummary (run (exOrdFs exAbove) [109]) = some (true, 0, [(536870912, [66, 120])]) := by
   decide +kernel
 
 end Trion.Asm
